@@ -56,13 +56,28 @@ ScoreOf(h) == LET w == FMatMul(FMatMul(T, G), FTr(h.TV))                 \* N x 
                   num == FTrace(kvv) - 2 * FTrace(FMatMul(kvn, w)) + FTrace(FMatMul(FTr(w), FMatMul(KNN, w)))
                   ly == FFrob2(FSub(h.Y, h.yp))  ny == FFrob2(h.Y)
               IN <<num, FTrace(kvv), ly, ny>>
+\* a / b in fixed point by long division (b > 0): no 32-bit overflow for quotients below 2^16; the divisor is shortened
+\* to 16 bits for the fractional digits (relative error 2^-15)
+QShr(b) == IF b < 65536 THEN 1 ELSE IF b < 4194304 THEN 64 ELSE IF b < 268435456 THEN 4096 ELSE 32768
+QDivP(a, b) == LET q == a \div b  r == a % b  h == QShr(b) IN q * S + ((r \div h) * S) \div (b \div h)
+QDiv(a, b) == FSgn(a) * QDivP(FAbs(a), b)
+SmallScore(h, s) == FAbs(h.score) < 8 * S /\ s[2] < 64 * S /\ s[4] < 64 * S /\ FAbs(s[1]) < 64 * S /\ s[3] < 64 * S
 ScoreClause(h) == LET s == ScoreOf(h) IN
     IF s[2] <= 64 \/ s[4] <= 64 THEN "ok"          \* vanishing kernel trace or target norm: the relative losses are 0/0
     ELSE IF ~h.finite THEN "score-not-finite"
     \* -score * trKVV * nY  ~  num * nY + lY * trKVV
-    ELSE IF FAbs(FMul(FMul(-h.score, s[2]), s[4]) - (FMul(s[1], s[4]) + FMul(s[3], s[2])))
+    ELSE IF SmallScore(h, s) THEN
+         (IF FAbs(FMul(FMul(-h.score, s[2]), s[4]) - (FMul(s[1], s[4]) + FMul(s[3], s[2])))
             > 16 * (Len(h.KVV) + N) * (Mag(KNN) + 2) * (s[4] \div S + 2) + (FMul(s[2], s[4]) \div 100) THEN "score-differs-from-documented-loss"
-    ELSE "ok"
+          ELSE "ok")
+    \* large losses (an over-fitted regressor on held-out data, a large centred-and-scaled kernel trace): the same inequality
+    \* divided through by trKVV * nY, evaluated by long division
+    ELSE IF FAbs(s[1]) \div s[2] > 30000 \/ s[3] \div s[4] > 30000 THEN "ok"          \* reference loss beyond the fixed-point range: not decided
+    ELSE IF FAbs(h.score) > 61000 * S THEN "score-differs-from-documented-loss"
+    ELSE LET e1 == QDiv(16 * (Len(h.KVV) + N) * (Mag(KNN) + 2), s[2])
+             e2 == e1 + QDiv(2 * e1, s[4])
+             rhs == QDiv(s[1], s[2]) + QDiv(s[3], s[4])
+         IN IF FAbs(-h.score - rhs) > e2 + S \div 100 + FAbs(rhs) \div 4000 + 8 THEN "score-differs-from-documented-loss" ELSE "ok"
 HeldClause == IF \E q \in 1..Len(C.held) : C.held[q].raised THEN "held-out-set-rejected"
               ELSE IF ~GOK THEN "ok"
               ELSE LET bad == {q \in 1..Len(C.held) : ScoreClause(C.held[q]) # "ok"} IN IF bad = {} THEN "ok" ELSE ScoreClause(C.held[SetMin(bad)])
